@@ -988,6 +988,8 @@ impl Scenario for C16 {
     }
 
     fn run(&self, case: &Case, ctx: &Arc<RunCtx>) -> RunOut {
+        // switch threads only at this scenario's own layer's sites (see sched::Baton::allow)
+        crate::sched::set_allowed_sites(&["c16.", "chain.", "tensor_chain."]);
         let mut out = RunOut::default();
         let concurrent = case.threads.len() > 1;
         let t_init = ctx.lock().wall_ns;
